@@ -186,8 +186,10 @@ CLAIMED["C19"] = dict(
     "OutputFiles.open_record_writer): the decision is a function of the output name and of whether the input has qualities only -- the core count and the input's compression are not "
     "arguments; appending any of .gz/.xz/.bz2/.zst to an uncompressed name never changes it (C19_compression_suffix_irrelevant); a FASTA extension gives FASTA, a FASTQ extension gives "
     "FASTQ exactly when there are qualities (C19_name_decides, for every stem); unknown names fall back to the input format (C19_fallback); two files vs interleaved: "
-    "deinterleave(interleave pairs) = pairs (C19_interleaved_layout). PARTIAL: that compressed containers hold the same bytes as plain ones is xopen's and the compression libraries' business "
-    "(not modelled); 'FASTA input gives the same names and sequences as FASTQ input' is not yet a theorem of the pipeline model. Both are covered by the matrix: every random single-end/paired "
+    "deinterleave(interleave pairs) = pairs (C19_interleaved_layout); FASTA input gives the same names and sequences as FASTQ input when no quality-based option is used: the pipeline model "
+    "run on a read with its qualities dropped has the same fate, the same matches and the output read with qualities dropped, for every stage order, option set and read "
+    "(C19_fasta_equals_fastq). PARTIAL: that compressed containers hold the same bytes as plain ones is xopen's and the compression libraries' business "
+    "(not modelled). That and the tie of the theorems to the code are covered by the matrix: every random single-end/paired "
     "option set is run plain/two-file/one-core and then under input container {plain,gz,multi-member gz,bz2,xz,zst} x output container {plain,gz,bz2,xz,zst} x interleaved in/out x FASTA "
     "input x .fasta output names x 1/2 cores; decompressed records must be equal and every file must hold the format its name asks for (own reading of the documentation). Tie of the model: "
     "extracted decision vs the writer class really created (direct and proxied) for ~400-4000 generated names. Genuine defects repaired: F6 (af2c43b), F21 (41c57e9).",
